@@ -27,7 +27,8 @@ class TagValidator:
          """
         validation_issues = []
         validation_issues += self.check_tag_exists_in_schema(original_tag)
-        if not allow_placeholders:
+        if not allow_placeholders or not original_tag.is_takes_value_tag():
+            # A placeholder is only meaningful as the value of a value-taking tag.
             validation_issues += self.check_for_placeholder(original_tag, is_definition)
         validation_issues += self.check_tag_requires_child(original_tag)
         validation_issues += self.check_tag_is_deprecated(original_tag)
